@@ -47,6 +47,7 @@ def modelInt (r : R Int) : String × Option Int :=
   match r with
   | .ok v => ("ok", some v)
   | .error (.err _) => ("err", none)
+  | .error (.errCtx _ _) => ("err", none)
   | .error (.panic _) => ("panic", none)
 
 def strClass (p : Nat) (s : Int) (txt : SaModel.Spec.Decimal.Bytes) : String :=
